@@ -666,3 +666,6 @@ def run(ctx):
     r8(ctx)
     r9(ctx)
     r10(ctx)
+    # reader and primitive agree on the shortest BIT STRING content (8 octets of bit length; shared with C04)
+    from .c04 import r6 as bit_string_length_guard
+    bit_string_length_guard(ctx, rule="C17.R11")
